@@ -242,7 +242,17 @@ class PolyVal:
             raise OutOfSubset(f'polynomial {op} {type(other).__name__}')
         a, b = (o, self.den) if reflected else (self.den, o)
         if op == 'Mult':
-            return PolyVal(a * b)                      # contract of Polynomial.__mul__ / __rmul__
+            # contract of Polynomial.__mul__ / __rmul__; the product gets a name (definitional equality) so that later
+            # facts about it (single-monomial view) are linear in that name
+            ctx = interp.ctx
+            m = z3.Real(ctx.fresh('polyprod'))
+            ctx.assume(m == a * b)
+            r = PolyVal(m)
+            r.factors = (a, b)
+            if not hasattr(ctx, 'poly_mults'):
+                ctx.poly_mults = []
+            ctx.poly_mults.append(r)
+            return r
         if op == 'Add':
             return PolyVal(a + b)                      # contract of Polynomial.__add__ / __radd__
         if op == 'Sub':
@@ -263,12 +273,23 @@ class PolyVal:
         return False
 
     def kvc_len(self):
-        return SInt(z3.Int(current().fresh('polylen')))
+        if getattr(self, '_len', None) is None:
+            ctx = current()
+            self._len = z3.Int(ctx.fresh('polylen'))
+            ctx.assume(z3.And(self._len >= 0, z3.Implies(self._len == 0, self.den == 0)))     # WF: the empty list denotes 0
+        return SInt(self._len)
 
     def kvc_getitem(self, interp, i):
-        # only the common-factor removal of RationalPolynomial.__mul__ looks inside a polynomial: that branch is an
-        # *assumed contract* (bounded stand-in), the path ends here
-        raise PathEnd('assumed: common-factor removal branch of RationalPolynomial.__mul__')
+        # only the common-factor removal of RationalPolynomial.__mul__ looks inside a polynomial (one monomial: [c, v1, v2, ..])
+        if not (isinstance(i, int) and i == 0):
+            raise OutOfSubset('polynomial[i] for i != 0')
+        ctx = interp.ctx
+        ctx.safety('IndexError', self.kvc_len().t >= 1)
+        if getattr(self, '_mono', None) is None:
+            self._mono = MonoSeq(ctx, ctx.fresh('mono'), z3.IntVal(0))
+        # a polynomial of length 1 denotes its only monomial
+        ctx.assume(z3.Implies(self.kvc_len().t == 1, self.den == self._mono.den()))
+        return self._mono
 
     def kvc_truth(self, interp):
         return mkbool(self.den != 0)
@@ -307,6 +328,12 @@ class RatCls:
         self.made = []
 
     def kvc_call(self, interp, numer=None, denom=None):
+        def mono(x):
+            if isinstance(x, list) and len(x) == 1 and isinstance(x[0], CList):
+                interp.ctx.oblige('the monomial handed to RationalPolynomial(...) is well formed: non-zero coefficient', x[0].coef != 0, 'pre')
+                return PolyVal(x[0].coef * x[0].prod)
+            return x
+        numer, denom = mono(numer), mono(denom)
         if isinstance(numer, list):
             if numer == []:
                 numer = PolyVal(z3.RealVal(0))
@@ -324,6 +351,51 @@ class RatCls:
         r = RatVal(self, numer, denom)
         self.made.append(r)
         return r
+
+
+def _common_factor_spec(ctx):
+    """while p1 < len(fl1) or p2 < len(fl2): drop factors common to numerator and denominator monomials.
+    Invariant: nnn / nnd == (factors of fl1 before p1) / (factors of fl2 before p2) (cross-multiplied; at a generic point
+    every variable value is non-zero), both output lists sorted and below the heads still to come."""
+    st = {}
+
+    def inv(A, B, N, D, p1, p2):
+        return [('p1 in range', z3.And(p1 >= 1, p1 <= A.L)), ('p2 in range', z3.And(p2 >= 1, p2 <= B.L)),
+                ('coefficients are those of the two monomials', z3.And(N.coef == A.cf, D.coef == B.cf)),
+                ('nnn / nnd == (factors of fl1 before p1) / (factors of fl2 before p2)', N.prod * B.suf(p2) == D.prod * A.suf(p1)),
+                ('all products are non-zero at a generic point', z3.And(D.prod != 0, N.prod != 0, A.suf(p1) != 0, B.suf(p2) != 0)),
+                ('nnn stays below the head of fl1', z3.Implies(z3.And(N.nonempty, p1 < A.L), N.last <= A.vf(p1))),
+                ('nnd stays below the head of fl2', z3.Implies(z3.And(D.nonempty, p2 < B.L), D.last <= B.vf(p2)))]
+
+    def establish(interp, env, it):
+        A, B, N, D = env.lookup('fl1'), env.lookup('fl2'), env.lookup('nnn'), env.lookup('nnd')
+        p1, p2 = env.lookup('p1'), env.lookup('p2')
+        ok = isinstance(A, MonoSeq) and isinstance(B, MonoSeq) and p1 == 1 and p2 == 1 and all(
+            isinstance(x, list) and len(x) == 1 and isinstance(x[0], SNum) for x in (N, D))
+        ctx.oblige('common-factor inv-init: nnn == [fl1[0]], nnd == [fl2[0]], p1 == p2 == 1',
+                   z3.BoolVal(False) if not ok else z3.And(N[0].t == A.cf, D[0].t == B.cf), 'inv')
+        st['A'], st['B'] = A, B
+
+    def havoc(interp, env, it, n, at_exit):
+        A, B = st['A'], st['B']
+        p1, p2 = SInt(z3.Int('p1')), SInt(z3.Int('p2'))
+        N = CList(ctx, z3.Real('nnn_coef'), z3.Real('nnn_prod'), z3.Int('nnn_last'), z3.Bool('nnn_nonempty'))
+        D = CList(ctx, z3.Real('nnd_coef'), z3.Real('nnd_prod'), z3.Int('nnd_last'), z3.Bool('nnd_nonempty'))
+        ctx.assume(z3.And(*[f for _, f in inv(A, B, N, D, p1.t, p2.t)]))
+        env.vars['p1'], env.vars['p2'], env.vars['nnn'], env.vars['nnd'] = p1, p2, N, D
+        st['N'], st['D'] = N, D
+
+    def preserve(interp, env, it, n):
+        A, B = st['A'], st['B']
+        N, D, p1, p2 = env.lookup('nnn'), env.lookup('nnd'), env.lookup('p1'), env.lookup('p2')
+        if N is not st['N'] or D is not st['D'] or not isinstance(p1, SInt) or not isinstance(p2, SInt):
+            ctx.oblige('common-factor inv: loop variables keep their shape', False, 'inv')
+            return
+        hyp = z3.And(A.facts_at(p1.t - 1), B.facts_at(p2.t - 1), A.facts_at(p1.t), B.facts_at(p2.t))
+        for lab, f in inv(A, B, N, D, p1.t, p2.t):
+            ctx.oblige('common-factor inv-step: ' + lab, z3.Implies(hyp, f), 'inv')
+        ctx.oblige('common-factor progress', z3.Int('p1') + z3.Int('p2') < p1.t + p2.t, 'inv')
+    return LoopSpec(establish, havoc, preserve)
 
 
 def _rat(ctx, cls, name):
@@ -350,15 +422,15 @@ def vc_rational(H):
 
                     class NumArg(int):
                         pass
-                interp = Interp(ctx, source_name=REL)
+                interp = Interp(ctx, loop_specs={('__mul__', 0): _common_factor_spec(ctx)} if meth == '__mul__' else {}, source_name=REL)
                 if other_kind == 'int':
                     # a plain number operand: represented by its value (a numeric coefficient)
                     arg = SNum(bn)
                 else:
                     arg = other
                 env = {'RationalPolynomial': cls}
-                # the common-factor removal for single monomials (while loop over factor lists) is not under contract:
-                # PolyVal.kvc_len returns fresh lengths; assume that branch is not taken (listed as assumed)
+                # the common-factor removal for single monomials (while loop over the two sorted factor lists) carries the
+                # invariant of _common_factor_spec
                 r = H.closure(interp, fuc, env)(me, arg)
                 if not isinstance(r, (RatVal, SNum, int)):
                     ctx.oblige('post: returns a rational polynomial', False)
@@ -371,9 +443,23 @@ def vc_rational(H):
                 if meth == '__add__':
                     ctx.oblige('post __add__: result denotes a/b + c/d', rn * (ad * bd) == (an * bd + bn * ad) * rd)
                 else:
-                    ctx.oblige('post __mul__: result denotes (a/b) * (c/d)', rn * (ad * bd) == (an * bn) * rd)
+                    def named(x, y):
+                        for pm in getattr(ctx, 'poly_mults', []):
+                            if {pm.factors[0].get_id(), pm.factors[1].get_id()} == {x.get_id(), y.get_id()}:
+                                return pm.den
+                    N, D = named(an, bn), named(ad, bd)
+                    if N is not None and D is not None:
+                        # stated over the names N := na * nb, D := da * db (definitional equalities of this path);
+                        # lemma L-named-products turns it into the statement over an, bn, ad, bd
+                        ctx.oblige('post __mul__: result denotes numer / denom with numer := na * nb, denom := da * db  [(a/b) * (c/d) by L-named-products]',
+                                   rn * D == N * rd)
+                    else:
+                        ctx.oblige('post __mul__: result denotes (a/b) * (c/d)', rn * (ad * bd) == (an * bn) * rd)
                 return r
             H.run_paths(fuc, f'other={other_kind}', body, max_paths=400)
+    q = [z3.Real(x) for x in ('rn', 'rd', 'N', 'D', 'an', 'bn', 'ad', 'bd')]
+    H.add_goal('lemma/L-named-products: rn*D == N*rd, N == an*bn, D == ad*bd  =>  rn*(ad*bd) == (an*bn)*rd',
+               [q[0] * q[3] == q[2] * q[1], q[2] == q[4] * q[5], q[3] == q[6] * q[7]], q[0] * (q[6] * q[7]) == (q[4] * q[5]) * q[1])
     # loop-free members
     simple = {
         '__neg__': (1, lambda an, ad, bn, bd: (-an, ad)),
@@ -497,13 +583,13 @@ class MonoSeq:
         self.L = z3.Function(tag + '_monolen', z3.IntSort(), z3.IntSort())(idx)            # length incl. the coefficient
         self.cf = z3.Function(tag + '_coef', z3.IntSort(), z3.RealSort())(idx)
         self.vf = lambda t, f=z3.Function(tag + '_var', z3.IntSort(), z3.IntSort(), z3.IntSort()): f(idx, t)
-        self.suf = lambda t, f=z3.Function(tag + '_SufProd', z3.IntSort(), z3.IntSort(), z3.RealSort()): f(idx, t)   # prod of values of vars t..
-        ctx.assume(z3.And(self.L >= 1, self.cf != 0, self.suf(self.L) == 1))
+        self.suf = lambda t, f=z3.Function(tag + '_PrefixProd', z3.IntSort(), z3.IntSort(), z3.RealSort()): f(idx, t)   # prod of values of vars 1..t-1
+        ctx.assume(z3.And(self.L >= 1, self.cf != 0, self.suf(1) == 1))
 
     def facts_at(self, t):
-        """sortedness and suffix-product unfolding at position t (instances of WF(monomial) and of the definition of Suf)"""
+        """sortedness and prefix-product unfolding at position t (instances of WF(monomial) and of the definition of the prefix product)"""
         return z3.And(z3.Implies(z3.And(t >= 1, t + 1 < self.L), self.vf(t) <= self.vf(t + 1)),
-                      z3.Implies(z3.And(t >= 1, t < self.L), self.suf(t) == Val(self.vf(t)) * self.suf(t + 1)))
+                      z3.Implies(z3.And(t >= 1, t < self.L), z3.And(self.suf(t + 1) == self.suf(t) * Val(self.vf(t)), Val(self.vf(t)) != 0)))
 
     def kvc_len(self):
         return SInt(self.L)
@@ -519,7 +605,7 @@ class MonoSeq:
         return SVar(self.vf(i.t))
 
     def den(self):
-        return self.cf * self.suf(1)
+        return self.cf * self.suf(self.L)
 
 
 class CList:
@@ -606,6 +692,10 @@ def vc_poly_mul(H):
             ok = isinstance(res, PolyVal)
             ctx.oblige('outer inv-init: res is the zero polynomial', z3.BoolVal(False) if not ok else res.den == 0, 'inv')
             ctx.assume(Fold(0) == 0)
+            from kvc.models import ProductSeq, RangeSeq
+            shape = isinstance(it, ProductSeq) and isinstance(it.a, RangeSeq) and isinstance(it.b, RangeSeq)
+            ctx.oblige('the loop runs over all pairs: itertools.product(range(0, len(self)), range(0, len(other)))',
+                       z3.BoolVal(False) if not shape else z3.And(sint(it.a.lo).t == 0, sint(it.a.hi).t == A.n.t, sint(it.b.lo).t == 0, sint(it.b.hi).t == B.n.t), 'inv')
 
         def havoc_outer(interp, env, it, n, at_exit):
             env.vars['res'] = PolyVal(Fold(n.t))
@@ -628,7 +718,7 @@ def vc_poly_mul(H):
 
         def inner_inv(Am, Bm, C, i, j):
             return z3.And(i >= 1, i <= Am.L, j >= 1, j <= Bm.L, C.coef == Am.cf * Bm.cf,
-                          C.prod * Am.suf(i) * Bm.suf(j) == Am.suf(1) * Bm.suf(1),
+                          C.prod == Am.suf(i) * Bm.suf(j),
                           z3.Implies(z3.And(C.nonempty, i < Am.L), C.last <= Am.vf(i)),
                           z3.Implies(z3.And(C.nonempty, j < Bm.L), C.last <= Bm.vf(j)))
 
@@ -647,8 +737,11 @@ def vc_poly_mul(H):
                 ctx.oblige('inner inv: loop variables keep their shape', False, 'inv')
                 return
             hyp = z3.And(Am.facts_at(i.t - 1), Bm.facts_at(j.t - 1), Am.facts_at(i.t), Bm.facts_at(j.t))
-            ctx.oblige('inner inv-step: merged product * remaining factors == product of all factors; C sorted and below both heads',
-                       z3.Implies(hyp, inner_inv(Am, Bm, C, i.t, j.t)), 'inv')
+            parts = inner_inv(Am, Bm, C, i.t, j.t).children()
+            labels = ['i in range', 'i in range', 'j in range', 'j in range', 'coefficient of C is A[0] * B[0]',
+                      'merged product == product of the variables of A before i and of B before j', 'C stays below the head of A', 'C stays below the head of B']
+            for lab, part in zip(labels, parts):
+                ctx.oblige('inner inv-step: ' + lab, z3.Implies(hyp, part), 'inv')
             ctx.oblige('inner progress', z3.Int('i') + z3.Int('j') < i.t + j.t, 'inv')
         outer = LoopSpec(est_outer, havoc_outer, preserve_outer)
         inner = LoopSpec(est_inner, havoc_inner, preserve_inner)
